@@ -86,3 +86,15 @@ MIN_BEHAVIOURS = {"McTwcc3": 3500, "McWirePairs": 1100, "McFaultsDev": 400, "McW
                   "McNackThorough": 15000, "McTwcc": 7000, "McTwccThorough": 50000, "McRemb": 2100, "McRembThorough": 5000, "McWireRemb": 100,
                   "McXr": 300, "McXrThorough": 4000, "McWireXr": 180, "McUnits": 200, "McUnitsThorough": 1500, "McWireUnits": 250,
                   "McHist": 5000, "McHist4": 20000}
+
+# vacuity guard on the trace side: the least number of events of the classes a property's judgement rests on (quick tier numbers
+# are 3 to 5 times these); fewer means a driver or script silently stopped exercising the property -> exit 2
+REQUIRE_STATS = {
+    "C01": {"dec_accepted": 5000, "unit_dec": 10000, "dec_undefined": 10000}, "C02": {"roundtrips": 3000, "wf_values": 1500},
+    "C03": {"marshal_ok": 4000, "wf_values": 1500}, "C04": {"dec_valid": 5000, "dec_mustreject": 5000},
+    "C05": {"size": 3000, "header": 1000}, "C06": {"dgram_mustreject": 500, "dgram_valid": 1000},
+    "C07": {"dec_mustreject": 3000, "dgram_accepted": 2000}, "C08": {"marshal_err": 200, "marshal_ok": 100},
+    "C09": {"roundtrips": 3000, "dgram_accepted": 3000}, "C10": {"dest": 3000}, "C11": {"validate": 1000, "cname": 1000},
+    "C12": {"nack": 10000}, "C13": {"dec_accepted": 10000}, "C14": {"nack": 1000}, "C15": {"roundtrips": 1500},
+    "C16": {"nack": 1000, "unit_enc": 500}, "C17": {"string": 5000}, "C18": {"wf_values": 3000, "string": 1000},
+}
